@@ -662,8 +662,15 @@ pub fn diff_text<V: Val>(what: &str, got: &[V], exp: &[V]) -> String {
 
 /// Build a column by a random op sequence mirrored on a Vec. With `check`
 /// the contents are compared after every op and all queries every k-th op.
+thread_local! {
+    /// when set, `drive` starts from a huge initial batch of tiny runs with max_segments = 2, so that
+    /// the slab index (a B-tree over the slabs) grows several levels deep
+    pub static HUGE: std::cell::Cell<bool> = const { std::cell::Cell::new(false) };
+}
+
 pub fn drive<K: Tgt>(cx: &mut Ctx, prop: &str, rng: &mut Rng, nops: usize, max_len: usize, check: bool) -> Built<K> {
-    let ms = pick_ms(rng);
+    let huge = HUGE.with(|h| h.get());
+    let ms = if huge { 2 } else { pick_ms(rng) };
     let doms = K::doms();
     let dom = *rng.pick(&doms);
     let mut b = Built::<K> {
@@ -686,11 +693,22 @@ pub fn drive<K: Tgt>(cx: &mut Ctx, prop: &str, rng: &mut Rng, nops: usize, max_l
     let mut slabs = b.col.slab_count();
     for step in 0..=nops {
         let op = if step == 0 {
-            if rng.chance(30) {
+            if !huge && rng.chance(30) {
                 continue;
             }
-            let n = rng.range(1, 150);
-            Op::Splice(0, 0, K::V::batch(rng, n, dom))
+            if huge {
+                // thousands of runs of 1-3 values each
+                let mut v = vec![];
+                let target = rng.range(5000, 9000);
+                while v.len() < target {
+                    let k = rng.range(1, 3);
+                    v.extend(K::V::batch(rng, k, dom));
+                }
+                Op::Splice(0, 0, v)
+            } else {
+                let n = rng.range(1, 150);
+                Op::Splice(0, 0, K::V::batch(rng, n, dom))
+            }
         } else {
             g.op(rng, &b.model)
         };
@@ -805,7 +823,16 @@ fn run_type<K: Tgt>(cx: &mut Ctx, rng: &mut Rng, counter: &'static str) {
         }
     };
     let max_len = if thorough { 3000 } else { 900 };
+    // one case in 48 starts from a huge column (slab index several levels deep) and applies few ops
+    let huge = rng.chance(2) && K::NAME != "RawColumn";
+    let (nops, max_len) = if huge { (rng.range(8, 30), 12_000) } else { (nops, max_len) };
+    HUGE.with(|h| h.set(huge));
     let b = drive::<K>(cx, "c34", rng, nops, max_len, true);
+    HUGE.with(|h| h.set(false));
+    if huge {
+        cx.count("huge_columns");
+        cx.max("slab_count_huge", b.col.slab_count() as u64);
+    }
     cx.count(counter);
     if b.saw_null {
         cx.count("nulls_seen");
@@ -879,10 +906,11 @@ impl Check for C34 {
         true
     }
     fn rule(&self) -> String {
-        "case n drives column type n mod 24 (13 Column<T>, 5 PrefixColumn<T>, 5 DeltaColumn<T>, RawColumn) built with max_segments in {2..16,64}: an optional initial batch, then 20-200 (thorough: up to 2000) random insert/remove/remove_n/push/truncate/clear/splice/splice_runs/extend/copy_ranges/edit-cursor/reload ops mirrored on a Vec (values: long runs, alternation, progressions, sorted batches, boundary integers inside the documented domain, nulls, strings of length 0/127/128/16384). After every op len and to_vec are compared; every k-th op (k in 1..4) also iter, get(i) for all i, iter_range, runs expanded, scripted iterator walks (next/nth/advance_to/advance_by/set_max/shift/shift_next/next_run/suspend+try_resume/scan_to_value), prefix sums and inverse lookups, find_by_value/find_first/find_by_range, scope_to_value on sorted windows, check_invariants and validate_encoding. Non-trivial = slab count changed or >1, or a run >= 64, or a null present; distinct by (column type, hash of the op-kind sequence).".into()
+        "case n drives column type n mod 24 (13 Column<T>, 5 PrefixColumn<T>, 5 DeltaColumn<T>, RawColumn) built with max_segments in {2..16,64} (one case in ~50 instead starts from 5000-9000 values in runs of 1-3 with max_segments = 2, so that the slab index is several levels deep, and applies 8-30 ops): an optional initial batch, then 20-200 (thorough: up to 2000) random insert/remove/remove_n/push/truncate/clear/splice/splice_runs/extend/copy_ranges/edit-cursor/reload ops mirrored on a Vec (values: long runs, alternation, progressions, sorted batches, boundary integers inside the documented domain, nulls, strings of length 0/127/128/16384). After every op len and to_vec are compared; every k-th op (k in 1..4) also iter, get(i) for all i, iter_range, runs expanded, scripted iterator walks (next/nth/advance_to/advance_by/set_max/shift/shift_next/next_run/suspend+try_resume/scan_to_value), prefix sums and inverse lookups, find_by_value/find_first/find_by_range, scope_to_value on sorted windows, check_invariants and validate_encoding. Non-trivial = slab count changed or >1, or a run >= 64, or a null present; distinct by (column type, hash of the op-kind sequence).".into()
     }
     fn required_counters(&self) -> Vec<&'static str> {
         let mut v = vec![
+            "huge_columns",
             "slab_splits_seen",
             "slab_merges_seen",
             "nulls_seen",
